@@ -314,7 +314,7 @@ def rule_restore(ctx, F):
                         restores.append(bi)
         # error exits taken *after* the label state was changed (end_label / take) and before any append
         muts = [bb for bb, t in b.calls() if t["fn"] and re.search(r"NameBuilder::<Builder>::end_label$|Option::<.*>::take$", t["fn"])]
-        errs = [r for r in return_assignments(b) if r[2] == "Err"]
+        errs = [r for r in return_assignments(b) if r[2] == "Err" and r[3] is not None]
         first_err = None
         for (rb, si, kind, term) in errs:
             # the guard-failure exit: an explicit Err(..) aggregate (not a `?` propagation from the appends)
@@ -774,9 +774,19 @@ def byte_partition(b, F, subject_is):
 
     bf = BranchFacts(b, F)
 
-    def dfs(bb, cur, onpath):
+    def dfs(bb, cur, onpath, env=None):
         if not cur:
             return
+        # boolean flags set to constants on this path (`matches!` lowers to a switch on the octet that
+        # sets a temporary to true/false, followed by a switch on the temporary)
+        env = dict(env or {})
+        for st in b.blocks[bb]["s"]:
+            if st[0] == "=" and len(st[1]) == 1:
+                rv = st[2]
+                if rv[0] == "use" and rv[1][0] == "k" and rv[1][1] == "bool" and rv[1][2] in (0, 1, True, False):
+                    env[st[1][0]] = 1 if rv[1][2] in (1, True) else 0
+                else:
+                    env.pop(st[1][0], None)
         t = b.blocks[bb]["t"]
         succs = b.succs(bb)
         if t["k"] == "ret" or not succs:
@@ -786,9 +796,17 @@ def byte_partition(b, F, subject_is):
             ef = bf.edge_facts(bb)
             d = deep_strip(b.term_of_operand(t["d"]))
             went = False
+            known = None
+            if t["ty"] == "bool" and t["d"][0] in ("c", "m") and len(t["d"][1]) == 1 and t["d"][1][0] in env:
+                known = env[t["d"][1][0]]
             for s, lab in succs:
                 if s in onpath:
                     continue
+                if known is not None:
+                    listed = [v for v, _ in t["v"]]
+                    takes = (lab == ("v", known)) or (lab == ("o",) and known not in listed)
+                    if not takes:
+                        continue
                 went = True
                 nxt = cur
                 if t["ty"] == "bool" and lab in ef:
@@ -801,7 +819,7 @@ def byte_partition(b, F, subject_is):
                         nxt = cur - listed
                     else:
                         nxt = cur & {lab[1]}
-                dfs(s, nxt, onpath + [bb])
+                dfs(s, nxt, onpath + [bb], env)
             if not went:
                 res.append((cur, bb, tuple(onpath)))
             return
@@ -809,7 +827,7 @@ def byte_partition(b, F, subject_is):
         for s, lab in succs:
             if s not in onpath:
                 went = True
-                dfs(s, cur, onpath + [bb])
+                dfs(s, cur, onpath + [bb], env)
         if not went:
             res.append((cur, bb, tuple(onpath)))  # loop back-edge: one iteration classified
 
@@ -831,6 +849,10 @@ def rule_esc(ctx, F):
         return
     raw = _writer_raw_set(w, F)
     acc = _reader_plain_set(r, F)
+    # not vacuous: letters and digits are certainly printed as they are
+    if raw is not None and not ctx.anchor(R, "octet classification of <Label as Display>::fmt (letters and digits printed raw)",
+                                          set(b"abcxyzABCXYZ0189-_") <= raw, w.where()):
+        return
     if raw is None or acc is None:
         ctx.ob(R, w, "shape", False, "writer/reader octet classifier shape not recognised (raw=%s acc=%s)"
                % (raw is not None, acc is not None))
